@@ -96,7 +96,15 @@ func StructGoType(s *ref.Struct) reflect.Type {
 		return s.GoType
 	}
 	var sf []reflect.StructField
-	for i, f := range s.Fields {
+	order := s.Fields
+	if s.DeclReversed {
+		// the Go declaration order is the reverse of the id order (generated code is not always sorted)
+		order = make([]*ref.Field, len(s.Fields))
+		for i, f := range s.Fields {
+			order[len(s.Fields)-1-i] = f
+		}
+	}
+	for i, f := range order {
 		if f.Name == "" {
 			f.Name = fmt.Sprintf("F%d", i)
 		}
